@@ -138,7 +138,8 @@ Start(c) ==
 \* after shutdown() an operation does nothing (the library returns None; raising would be just as good): no attempt is made
 StartShut(c, raises) ==
     /\ cl[c].pc = "start" /\ opH = c /\ shut
-    /\ Commit(IF raises THEN ToRaise(St, c, "err") ELSE [St EXCEPT !.cl[c].pc = "fin"])
+    /\ raises => Loose
+    /\ Commit(IF raises THEN Ends(ReleaseOp(St), c, "err") ELSE [St EXCEPT !.cl[c].pc = "fin"])
 CnGranted(c) ==
     /\ cl[c].pc = "cnwait" /\ cl[c].wake = "lock" /\ cnH = c
     /\ Commit([St EXCEPT !.cl[c].pc = IF cl[c].kind \in OpKinds THEN "conn0" ELSE "cstart", !.cl[c].wake = "none"])
